@@ -121,7 +121,12 @@ pub fn check_case(ctx: &Ctx, case: &ProgCase, challenges: &[Vec<airx::Q>], hints
 pub fn family(ctx: &Ctx) -> Vec<ProgCase> {
     let mut v = progs::p1(ctx.tier == mcx::Tier::Thorough);
     v.extend(progs::shapes());
+    v.extend(progs::large(false));
     if ctx.tier == mcx::Tier::Thorough {
+        v.extend(progs::large(true).into_iter().map(|mut c| {
+            c.name = c.name.replace("large/", "large4x/");
+            c
+        }));
         v.extend(progs::p2());
         v.extend(progs::p2_full());
     }
@@ -172,6 +177,6 @@ pub fn run(ctx: &Ctx, replay: Option<&Value>) -> i32 {
     });
     ctx.finish("exploration", cov, &[
         "\"for any verifier challenge\" is covered by K stated challenge vectors (the aux constraints are polynomial identities in the challenges), not by enumeration of the 2^128 space",
-        "programs outside the families and traces longer than 2^13 rows are not covered",
+        "programs outside the families are not covered; trace lengths above 2^13 are covered only by the six `large/*` programs (one per dominating component; up to 2^15 rows in the quick and 2^17 in the thorough tier)",
     ])
 }
